@@ -13,7 +13,7 @@
    bond: tmp 0 c n = identity_id(c, n) = "<c>_identity_<n>", tmp 1 c n = "<n>_projectorstar_<c>",
    tmp 2 c n = "<n>_projector_<c>" (projector_identifier is called with swapped arguments). *)
 From Coq Require Import List Arith Bool.
-From PTN Require Import TTN.Store TTN.Canon.
+From PTN Require Import TTN.Store TTN.Canon TTN.Inv.
 Import ListNotations.
 
 Definition tmpids := nat -> id -> id -> id.
@@ -227,3 +227,74 @@ Definition bond_dim (s : store) (c : id) : nat :=
   | Some nd, Some t => wdim s (nth (nth 0 (perm nd) 0) (axes t) 0)
   | _, _ => 0
   end.
+
+(* ---- vocabulary of the statements (TruncTreeProofs.v, Props/C10.v) ------------------------------------- *)
+(* the view of a store: for every identifier its parent pointer and the dimension of the bond above it
+   (the wire on leg 0 of a node that has a parent); None for an identifier that is not a node *)
+Definition bdim (s : store) (k : id) (nk : node) : nat :=
+  match parent nk with Some _ => wdim s (nth 0 (lax s k nk) 0) | None => 0 end.
+Definition view (s : store) (k : id) : option (option id * nat) :=
+  option_map (fun nk => (parent nk, bdim s k nk)) (aget k (nodes s)).
+Definition pmap (s : store) (k : id) : option (option id) := option_map fst (view s k).
+
+(* k is a proper descendant of a in the parent map pm *)
+Inductive desc (pm : id -> option (option id)) (a : id) : id -> Prop :=
+| desc_child k : pm k = Some (Some a) -> desc pm a k
+| desc_step k q : pm k = Some (Some q) -> desc pm a q -> desc pm a k.
+
+(* the bond-named temporaries of recursive_truncation are not identifiers of the tree, and differ for
+   different bonds / roles (string formatting in the code: a precondition on the caller's identifiers) *)
+Definition tmp_fresh (tmp : tmpids) (s : store) : Prop :=
+  forall j c m, j <= 2 -> In c (akeys (nodes s)) -> In m (akeys (nodes s)) -> aget (tmp j c m) (nodes s) = None.
+Definition tmp_inj (tmp : tmpids) : Prop :=
+  forall j j' c c' m, j <= 2 -> j' <= 2 -> tmp j c m = tmp j' c' m -> j = j' /\ c = c'.
+Definition tmp_freshb (tmp : tmpids) (s : store) : bool :=
+  forallb (fun c => forallb (fun m => forallb (fun j => negb (amem (tmp j c m) (nodes s))) [0; 1; 2])
+                            (akeys (nodes s))) (akeys (nodes s)).
+(* executable hypotheses of the tree-level theorems, checked per explored instance *)
+Definition trunc_hyps (tmp : tmpids) (rid : id) (cs : cstore) : bool :=
+  wfb (fst cs) && negb (amem rid (nodes (fst cs))) && tmp_freshb tmp (fst cs).
+
+(* truncate_node with a trace: the bonds (child identifiers) in the order their projector is computed *)
+Definition tr_step (f : store -> id -> option (store * list id)) (acc : option (store * list id)) (c : id) :=
+  match acc with
+  | Some (s', tr) => match f s' c with Some (s'', tr') => Some (s'', tr ++ tr') | None => None end
+  | None => None
+  end.
+Fixpoint truncate_node_tr (fuel : nat) (tmp : tmpids) (kd : id -> nat) (s : store) (n : id) : option (store * list id) :=
+  match fuel with
+  | O => None
+  | S f => match truncate_local tmp kd s n with
+           | None => None
+           | Some (s3, orig) => fold_left (tr_step (truncate_node_tr f tmp kd)) orig (Some (s3, orig))
+           end
+  end.
+
+Definition last_opt (L : list id) : option id := match L with [] => None | _ => Some (last L 0) end.
+
+(* recursive_truncation with the trace of truncate_node (same control flow) *)
+Definition recursive_truncation_trace (tmp : tmpids) (kd : id -> nat) (rid : id) (cs : cstore) : option (list id) :=
+  match root (fst cs) with
+  | None => None
+  | Some r =>
+      let have := match snd cs with Some c => Nat.eqb r c | None => false end in
+      match (if have then Some cs else canonical_form cs r Reduced rid) with
+      | None => None
+      | Some cs1 => option_map snd (truncate_node_tr (length (nodes (fst cs1))) tmp kd (fst cs1) r)
+      end
+  end.
+
+(* per-instance facts evaluated next to the correspondence: the hypotheses of the universal theorems on the
+   store the routine starts from, the supplied dimensions on every truncated bond and the invariant afterwards,
+   and the order in which the bonds are handled *)
+Definition trunc_info (algo : bool) (tmp : tmpids) (kdl : list (id * nat)) (rid : id) (cs : cstore) :=
+  let kd := dget kdl in
+  let hyps := if algo then trunc_hyps tmp rid cs else wfb (fst cs) && negb (amem rid (nodes (fst cs))) in
+  let res := if algo then recursive_truncation tmp kd rid cs else svd_truncation kd rid cs in
+  let post := match res with
+              | Some cs' => wfb (fst cs') && forallb (fun ck => Nat.eqb (bond_dim (fst cs') (fst ck)) (snd ck)) kdl
+              | None => true
+              end in
+  let trace := if algo then match recursive_truncation_trace tmp kd rid cs with Some tr => tr | None => [] end
+               else removelast (linearise (fst cs)) in
+  (hyps, post, trace).
